@@ -279,7 +279,7 @@ partial def parseTT : SExp → Option TraitType
   | .list [.atom "String", .atom mn, mx, re] => do
     pure (.string (← mn.toNat?) (← parseOptNat mx) (← parseOptNat re))
   | .list (.atom "PrefixList" :: ss) =>
-    (ss.mapM fun x => match x with | .atom s => some (decodeStr s) | _ => none).map .prefixList
+    (ss.mapM fun (x : SExp) => match x with | SExp.atom s => some (decodeStr s) | _ => none).map .prefixList
   | .list (.atom "PrefixMap" :: ps) => (parseStrPairs ps).map fun (k, v) => .prefixMap k v
   | .list [.atom "CoerceH", ty] => (parseTy ty).map .coerceH
   | .list [.atom "CastH", ty] => (parseTy ty).map .castH
